@@ -369,3 +369,49 @@ func HarnessC09HandlerStreamLimit() {
 		}
 	}
 }
+
+// HarnessC09SpecialEnvelopeBomb: the protocols' own final envelopes are
+// subject to the limit after decompression too: a Connect end-of-stream
+// envelope (flags 0x03) or a gRPC-Web trailer envelope (flags 0x81) that is
+// small on the wire and inflates past the client's read limit fails the call
+// with the documented error; it is not inflated and accepted.
+//
+//verif:harness property=C09 stubs=json,wire,grow
+func HarnessC09SpecialEnvelopeBomb() {
+	const M = 48
+	web := nondetBool("web")
+	fill := nondetByte("fill")
+	bomb := []byte{0xC6, 100, fill} // run-length form: inflates to 100 bytes
+	header := http.Header{"Content-Type": {"application/connect+proto"}, "Connect-Content-Encoding": {"gzip"}}
+	body := refFrame(0, []byte{7})
+	proto := 0
+	if web {
+		proto = 2
+		header = http.Header{"Content-Type": {"application/grpc-web+proto"}, "Grpc-Encoding": {"gzip"}}
+		body = append(body, refFrame(0x81, bomb)...)
+	} else {
+		body = append(body, refFrame(0x03, bomb)...)
+	}
+	tr := &cannedTransport{resp: &http.Response{StatusCode: 200, Status: "200 OK", ProtoMajor: 2, Header: header, Trailer: http.Header{}, Body: io.NopCloser(&wholeReader{data: body})}}
+	client := NewClient[[]byte, []byte](tr, stackURL, stackClientOptions(proto, c08XorClient("gzip"), WithReadMaxBytes(M))...)
+	in := []byte{1}
+	verifMaxGrow = 0
+	stream, err := client.CallServerStream(context.Background(), NewRequest(&in))
+	check(err == nil, "starting the stream succeeds")
+	if err != nil {
+		return
+	}
+	n := 0
+	for stream.Receive() {
+		n++
+		if n > 2 {
+			break
+		}
+	}
+	serr := stream.Err()
+	_ = stream.Close()
+	check(serr != nil, "a final envelope that inflates past the read limit fails the call")
+	if serr != nil {
+		check(CodeOf(serr) == CodeInvalidArgument || CodeOf(serr) == CodeResourceExhausted, "the oversize final envelope is reported as invalid_argument or resource_exhausted")
+	}
+}
